@@ -178,7 +178,7 @@ pub fn craft(rng: &mut StdRng, c: &Committee, k: &mut Knowledge, correct: &[usiz
     let sk = &c.sk[b];
     // `helpful`: the Byzantine validators vote like honest ones (so that the rest can finalize without an isolated replica) and
     // poison that replica with old certificates
-    let choice = if helpful { [3usize, 3, 3, 5][rng.gen_range(0..4)] } else { rng.gen_range(0..if allow_extreme { 13 } else { 11 }) };
+    let choice = if helpful { [3usize, 3, 3, 5][rng.gen_range(0..4)] } else { rng.gen_range(0..if allow_extreme { 14 } else { 12 }) };
     let payload = |rng: &mut StdRng, tag: &str| validator::Payload(format!("{tag}-byz{b}-{}", rng.gen::<u32>()).into_bytes());
     match choice {
         // equivocating / rule-breaking proposals when a Byzantine validator leads a current or upcoming view
@@ -366,6 +366,15 @@ pub fn craft(rng: &mut StdRng, c: &Committee, k: &mut Knowledge, correct: &[usiz
                 }
             };
             Some(Crafted { what: "byz-non-member", msgs: vec![(m, some_subset(rng, correct))], steer: None })
+        }
+        // a proposal for the current / next view by a validator that does NOT lead it (valid justification, fresh payload)
+        11 => {
+            let view = (cur..cur + 2).find(|v| c.leader(*v) != b)?;
+            let just = k.justification_for(view, rng.gen_bool(0.3))?;
+            let (_n, implied) = just.get_implied_block(&c.schedule, c.genesis.first_block);
+            let p = if implied.is_some() { None } else { Some(payload(rng, "W")) };
+            let m = s_proposal(sk, LeaderProposal { proposal_payload: p, justification: just });
+            Some(Crafted { what: "byz-proposal-by-non-leader", msgs: vec![(m, correct.to_vec())], steer: None })
         }
         // well-signed absurd values (C10 L6)
         _ => {
